@@ -193,6 +193,7 @@ def run(ctx):
     from . import system_common as sysc
     sessions, sverdict = sysc.run_sessions(ctx, 150 if ctx.quick else 3000, ctx.seed + 9)
     sysc.judge(ctx, "C09", sessions, sverdict, {"countnotes"}, "counting a chart's notes inside a session")
+    sysc.mc_for(ctx, "C09")          # MC_System: bounded model of whole sessions, every transition replayed on the library
     ctx.notes["sessions_with_a_countnotes_event"] = sum(1 for s_ in sessions if any(e["op"] == "countnotes" for e in s_["events"]))
     ctx.exhaustive = True
     ctx.rule = ("M: every stream of the grid x 9 policies through the operational machine (TLC BFS); S2C: every terminal state; "
